@@ -20,7 +20,8 @@ POOL += [chr(c) for c in range(0x20, 0x7f)] + [chr(c) for c in range(0xa0, 0x100
 
 
 def _send_case(a):
-    rid, tags = a
+    rid, tags = a[0], a[1]
+    mt = a[2] if len(a) > 2 else FMsg.NEWORDERSINGLE
     loop = VLoop()
     install_clock(loop)
     ep = Endpoint(loop, "A", "B")
@@ -29,7 +30,7 @@ def _send_case(a):
         ep.conn._message_last_time = loop.time()
         loop.run_idle()
         n0 = len(ep.sent)
-        m = FIXMessage(FMsg.NEWORDERSINGLE)
+        m = FIXMessage(mt)
         for t, v in tags:
             if isinstance(v, list):
                 m.set_group(t, [dict(x) for x in v])
@@ -68,6 +69,16 @@ def run(ctx):
         if rng.random() < 0.3:
             tags.append((78, [{79: rng.choice(POOL), 80: "5"}, {79: "b", 80: rng.choice(POOL)}]))
         cases.append(("r%d" % i, tags))
+    # every message type of the dictionary enum (one- and two-character types) and custom types; application kinds only
+    # (session kinds are written in the session histories below)
+    session_kinds = {FMsg.LOGON, FMsg.LOGOUT, FMsg.HEARTBEAT, FMsg.TESTREQUEST, FMsg.RESENDREQUEST, FMsg.SEQUENCERESET}
+    for i, mt in enumerate([x for x in FMsg if x not in session_kinds] + ["U1", "ZZZ", "u", "U12345"]):
+        cases.append(("mt%d" % i, [(58, "t")], mt))
+        if i % 5 == 0:
+            cases.append(("mtg%d" % i, [(11, "id"), (78, [{79: "a", 80: "5"}])], mt))
+    # body lengths crossing the 2->3 and 3->4 digit boundaries of BodyLength
+    for L in list(range(20, 60)) + list(range(915, 960)):
+        cases.append(("len%d" % L, [(58, "x" * L)]))
     recs = pmap(_send_case, cases)
     # every frame written during session histories
     alpha = sessrun.alphabet(ctx)
